@@ -95,6 +95,12 @@ inline void rc_check(char const* sub, rc::Gen<Case> gen, int cases, int max_size
             auto c = *gen;
             Flight<Case> fl(sub, c);
             auto d = prop(c);
+            if (!d.empty() && ctx().memory_only) {
+                // C02 memory mode: functional mismatches belong to the owning property; only sanitizer reports,
+                // traps and crashes (which never return here) count
+                ++stats().functional_mismatch_ignored;
+                d.clear();
+            }
             if (!d.empty()) {
                 any_fail    = true;
                 last_cs     = show_case(c);
